@@ -100,6 +100,11 @@ type VC struct {
 	lateVars   map[string]bool
 	usedLib    map[string]bool
 	errFormats []errFmt
+	recDefs    map[string]*recDef
+	lemmaUsed  map[*Lemma]bool
+	lemmaProving *Lemma
+	lemmaForms []lemmaForm
+	recEnvs    []Env
 	sentinels  []string
 	rootFr     *Frame
 	smokeExit  *Obligation
